@@ -175,6 +175,12 @@ func gen(g *core.G) {
 		}
 	}
 
+	// ---- (2') the recursion guard of aliases: one alias object meeting the same right-hand part twice -----------
+	for _, gc := range lg.GuardCases(400 * g.Scale) {
+		g.Emit("sound " + gc.A.String() + " " + gc.B.String() + " " + gc.V.String())
+		g.Emit("sound " + gc.A.String() + " " + gc.B.String() + " " + lg.MutateVal(gc.V).String())
+	}
+
 	// ---- (3) malformed / odd stream (implementation only: no constructor accepts these terms) ---------------
 	odd := []string{
 		"(int 2 1)", "(flt (1 0) (0 0))", "(tspan 5 1)", "(strsz 3 1)", "(strsz -1 2)", "(coll 2 1)", "(arr any 5 2)", "(arr any -1 2)",
